@@ -12,6 +12,12 @@ package main
 
 import (
 	"sync"
+	"time"
+
+	"github.com/bartossh/Computantis/src/cache"
+	"github.com/bartossh/Computantis/src/gossip"
+	"github.com/bartossh/Computantis/src/pipe"
+	pb "github.com/bartossh/Computantis/src/protobufcompiled"
 	"bytes"
 	"crypto/sha256"
 	"encoding/hex"
@@ -409,6 +415,73 @@ func init() {
 				}
 			}
 			b.cancel()
+		}
+		// ---- the same vertex on the WIRE: a peer can send byte fields of any length. A valid vertex whose hash,
+		// parent hashes or transaction hash carry extra trailing bytes is not the vertex that was signed: the
+		// gossip handler refuses it and the ledger stays as it was (the untouched message is admitted).
+		{
+			gen := genesisOf(a.ab)
+			type ext struct {
+				field string
+				n     int
+			}
+			var cases []ext
+			for _, f := range []string{"none", "hash", "left", "right", "trxhash"} {
+				for _, n := range []int{1, 32} {
+					if f == "none" && n == 32 {
+						continue
+					}
+					cases = append(cases, ext{f, n})
+				}
+			}
+			for ci, ec := range cases {
+				t, _ := transaction.New("wire", spice.Melange{Currency: 2, SupplementaryCurrency: uint64(ci)}, nil, rec.Address(), recSigner{iss})
+				vx, err := accountant.NewVertex(t, gen.Hash, second.Hash, 52, recSigner{sealer})
+				if err != nil {
+					continue
+				}
+				b := w.NewNode()
+				w.syncFrom(a, b)
+				hc, _ := cache.New(100, 16)
+				fl, _ := cache.NewFlash()
+				g := gossip.VerifNewGossiper(nopLog{}, time.Second, b.w, w.ver, b.ab, hc, fl, pipe.New(10, 10), "recv")
+				pv := gossip.VerifMapVertexToProto(&vx)
+				pad := make([]byte, ec.n)
+				switch ec.field {
+				case "hash":
+					pv.Hash = append(pv.Hash, pad...)
+				case "left":
+					pv.LeftParentHash = append(pv.LeftParentHash, pad...)
+				case "right":
+					pv.RightParentHash = append(pv.RightParentHash, pad...)
+				case "trxhash":
+					pv.Transaction.Hash = append(pv.Transaction.Hash, pad...)
+				}
+				before := ledgerKey(ptr(b.ab.VerifSnapshot()))
+				var gerr error
+				func() {
+					defer func() {
+						if r := recover(); r != nil {
+							gerr = fmt.Errorf("panic: %v", r)
+						}
+					}()
+					_, gerr = g.Server().GossipVrx(w.ctx, &pb.VrxMsgGossip{Vertex: pv})
+				}()
+				after := ledgerKey(ptr(b.ab.VerifSnapshot()))
+				b.cancel()
+				c.Rep.Evals++
+				c.Distinct(fmt.Sprintf("wire-extended/%s+%d", ec.field, ec.n))
+				info := map[string]interface{}{"section": "tamper", "scenario": "wire-extended-hash-field", "field": ec.field, "extra_bytes": ec.n}
+				if ec.field == "none" {
+					if gerr != nil || before == after {
+						c.Violate("C04", "valid-vertex-rejected", fmt.Sprintf("a valid vertex offered through the gossip handler: %v", gerr), info)
+					}
+					continue
+				}
+				if gerr == nil || before != after {
+					c.Violate("C04", "mutant-admitted:wire."+ec.field+".extended", fmt.Sprintf("a valid vertex whose %s field carries %d extra byte(s) on the wire: handler answered %v, ledger changed: %v", ec.field, ec.n, gerr, before != after), info)
+				}
+			}
 		}
 		// sha256 / base58 cross checks for the model's executable crypto
 		for i := 0; i < 40; i++ {
